@@ -47,6 +47,7 @@ type options struct {
 	solver  string
 	noNat   bool
 	params  map[string]int
+	budget  time.Duration
 }
 
 func main() {
@@ -328,6 +329,9 @@ func cmdRun(args []string) int {
 			opt.verbose = true
 		case "--no-native":
 			opt.noNat = true
+		case "--budget":
+			i++
+			opt.budget, _ = time.ParseDuration(args[i])
 		case "--param":
 			i++
 			kv := strings.SplitN(args[i], "=", 2)
@@ -400,11 +404,23 @@ func runProperty(prop string, ps *propSpec, opt options) int {
 			params[k] = v
 		}
 		h := &symex.HarnessRun{Name: hs.Name, Entry: entry, Params: params, Unwind: 16, MaxSteps: 40_000_000, MaxDecisions: 200000,
-			QueryTimeout: 30000, Preemptions: 2, RaceCheck: hs.Threads, WitnessMax: 12, Seed: opt.seed}
+			QueryTimeout: 60000, IncrTimeout: 4000, Preemptions: 2, RaceCheck: hs.Threads, WitnessMax: 12, Seed: opt.seed}
 		if opt.tier == "thorough" {
-			h.QueryTimeout = 120000
+			h.QueryTimeout = 180000
+			h.IncrTimeout = 8000
 			h.WitnessMax = 24
 		}
+		budget := 8 * time.Minute
+		if opt.tier == "thorough" {
+			budget = 45 * time.Minute
+		}
+		if v, ok := params["budgetSec"]; ok {
+			budget = time.Duration(v) * time.Second
+		}
+		if opt.budget > 0 {
+			budget = opt.budget
+		}
+		h.Deadline = time.Now().Add(budget)
 		applyEngineParams(h, params)
 		prog.Explore(h, opt.workers, opt.solver)
 		hev := ev.addHarness(hs, h)
